@@ -9,6 +9,7 @@ package walstore
 // standard library's Uint64 / AppendUint64 are assumed to be inverse to each other (both are
 // described by the same function le64v of the bytes), their bit-level definition is not needed.
 //@ ghost func le64v(b0 byte, b1 byte, b2 byte, b3 byte, b4 byte, b5 byte, b6 byte, b7 byte) uint64
+//@   replay uint64(b0) | uint64(b1)<<8 | uint64(b2)<<16 | uint64(b3)<<24 | uint64(b4)<<32 | uint64(b5)<<40 | uint64(b6)<<48 | uint64(b7)<<56
 //@ pure func le64at(s []byte, i int) uint64 = le64v(s[i], s[i+1], s[i+2], s[i+3], s[i+4], s[i+5], s[i+6], s[i+7])
 //@ pure func limbsAt(s []byte, off int, a0 uint64, a1 uint64, a2 uint64, a3 uint64) bool = le64at(s, off) == a0 && le64at(s, off + 8) == a1 && le64at(s, off + 16) == a2 && le64at(s, off + 24) == a3
 //@ extern func encoding/binary.(littleEndian).Uint64
